@@ -27,6 +27,16 @@ def chk(pid, level, text, note, technique, design_ref):
       "technique": technique,
     }
 CHECKS = [
+ chk("C03", "exploration",
+     "seeded search over (valid instance in arbitrary wire-legal representations, in-bound dyadic total assignment, split into 1-3 parts plus remainder, order of the parts, forced dependency-map order, hash seed): partial_evaluate on every function / constraint / removed constraint and as instance histories (given order, reverse order, all at once) with invariants after each step, then evaluate of the remainder; oracle = exact fixed-point Problem model evaluating the original at the combined assignment (objective, every constraint value, both feasibility flags, reported state), coefficient-by-coefficient equality of every partially evaluated function.",
+     "trusts: the exact polynomial/Problem model in sim/src/model/{poly,exact}.rs; workloads restricted to small dyadic rationals so that equality is exact",
+     "deterministic simulation (operation histories with scheduled map iteration orders, exact reference-model oracle after every step, shrinking + replay)",
+     "DESIGN.md section 3 C03"),
+ chk("C14", "exploration",
+     "seeded search over histories of 1-9 operations relax(id, reason, params) / restore(id) / evaluate(state) with IDs drawn on purpose from the active list, the removed list and unknown IDs (a third of the mutating operations must fail): after every step conservation of (id, function, equality, metadata) over both lists, each ID in exactly one list, recorded reason and parameters, failing operation => Err and message == previous value; every evaluate equals the exact reference evaluation of the step-0 instance with relaxed feasibility over the currently active list.",
+     "trusts: the two-list reference model in sim/src/props/c14.rs and the exact Problem model; valid instances only",
+     "deterministic simulation (operation histories with failing operations as injected faults, reference-model invariants after every step, shrinking + replay)",
+     "DESIGN.md section 3 C14"),
  chk("C17", "exploration",
      "seeded search over (abstract LP/MIP model, layout variant, container, entry point, chunking, fault plan): an independent renderer writes the MPS text in every layout variant of the statement, an independent gzip writer or flate2 packs it, and the real loaders read it from a simulated stream (load_raw_reader / load_zipped_reader) or the simulated disk (load_file) under short reads, EINTR, EIO at byte k (every k for N files, enumerated), open failure and one flipped container bit. Oracle: transient faults => Ok and exactly the expected problem (by name); hard fault or flipped bit => Err or the expected problem; each listed one-token corruption => Err.",
      "trusts: the reference model and renderer in sim/src/model/mps.rs (independent of the SDK's writer), the normal form in model/lp.rs; layouts the statement leaves open are not generated (listed in evidence assumptions)",
